@@ -316,6 +316,9 @@ def foreign_events(ctx, W):
                     kw['s2k'] = (3, 10, 16)
                 else:
                     kw['s2k'] = (3, [8, 2, 10, 9, 11, 1][ci % 6], [0, 96, 16][ri % 3])
+                    if rk == 'pw' and n % 2 == 0:
+                        # gpg --s2k-cipher-algo X --cipher-algo Y: the SKESK cipher (with another key size) wraps the key of the data cipher
+                        kw['skesk_alg'] = {9: 7, 7: 9, 8: 3, 3: 9, 2: 7, 11: 13, 12: 7, 13: 2, 4: 9}.get(alg, 9 if alg != 9 else 7)
             zl = (rk in ('cv25519', 'ecdh256', 'ecdh384') and alg in (9, 7)) or (rk == 'rsa' and alg in (9, 8, 3))
             p40 = rk in ('cv25519', 'ecdh256', 'ecdh384') and alg in (8, 11, 7)
             blob, log = enc.encrypt_message(inner, alg, recipients=recips, passphrases=pws, fmt='old' if n % 5 == 0 else 'new', partial=(n % 4 == 0), zero_lead_shared=zl, pad40=p40, **kw)
